@@ -1,6 +1,7 @@
 import Pdq.Model.Interp
 import Pdq.Props.C08
 import Pdq.Props.C03
+import Pdq.Props.C09
 /-!
 # C05 — Checkpoint values do not depend on the checkpoint set; they interpolate exactly
 ## Part 1: the interpolation algebra (strategy level)
@@ -128,5 +129,17 @@ theorem offgrid_eq_interp (p0 p1 : SolState n K) (tr0t trt1 : PCond n n K) (G0 G
 /-- at a checkpoint that coincides with a step end nothing is recomputed: the reported state is the stepped state -/
 theorem at_t1_reports_state (s : Strategy) (p1 : SolState n K) : (s.interpolateAtT1 p1).interpolated = p1 := by
   cases s <;> rfl
+
+/-- **filter_interp_exact for the shipped prior.** For the integrated Wiener process the premise of
+`predict_via_checkpoint` is `C09.iwp_semigroup`: predicting over `h₁` to a checkpoint and then over `h₂` gives
+exactly the prediction over `h₁ + h₂` — means and covariances — for every order, every scale and every Gaussian. -/
+theorem filter_interp_exact_iwp [CharZero K] (q : ℕ) (h1 h2 s2 : K) (hh1 : h1 ≠ 0) (hh2 : h2 ≠ 0) (hh : h1 + h2 ≠ 0)
+    (g : Gauss (q + 1) K) :
+    ((Iwp.transition1 q h2 s2).marg ((Iwp.transition1 q h1 s2).marg g)).mean.toV
+        = ((Iwp.transition1 q (h1 + h2) s2).marg g).mean.toV ∧
+    ((Iwp.transition1 q h2 s2).marg ((Iwp.transition1 q h1 s2).marg g)).cov.toM
+        = ((Iwp.transition1 q (h1 + h2) s2).marg g).cov.toM := by
+  have h := C09.iwp_semigroup q h1 h2 s2 hh1 hh2 hh
+  exact predict_via_checkpoint _ _ _ g (by rw [h]) (by rw [h]) (by rw [h])
 
 end Pdq.C05
